@@ -457,6 +457,114 @@ Section RegStep.
     intros st i x st1 push sp H He.
     exec_cases He;
       try (eapply RG_ext; [|exact H]; reg_eq_tac; fail).
-    Show.
-  Admitted.
+    - eapply RG_ext; [|apply (RG_add_join st s k c hb t (s_ctxc (subs st s))); auto; apply mem_nIn; auto]; reg_eq_tac.
+    - eapply RG_ext; [|apply (RG_add_join st s k c hb t (s_ctxc (subs st s))); auto; apply mem_nIn; auto]; reg_eq_tac.
+    - eapply RG_ext; [|apply (RG_add_new st s k c hb (s_ctxc (subs st s))); auto; apply mem_nIn; auto]; reg_eq_tac.
+    - eapply RG_ext; [|apply (RG_add_new st s k c hb (s_ctxc (subs st s))); auto; apply mem_nIn; auto]; reg_eq_tac.
+    - eapply RG_ext; [|eapply RG_remove_locked; [|exact Erm]; eapply RG_ext; [|exact H]; reg_eq_tac]; reg_eq_tac.
+    - eapply RG_ext; [|eapply RG_remove_many; [|exact Erm]; eapply RG_ext; [|exact H]; reg_eq_tac]; reg_eq_tac.
+    - eapply RG_ext; [|eapply RG_shutdown; [exact H|exact Erm]]; reg_eq_tac.
+    - assert (Hr : In (t_key (trigs st t0), t0) (reg st)).
+      { destruct (fix_c v).
+        - destruct (is_reg st t) eqn:E; inversion Ec; subst. apply is_reg_true; auto.
+        - apply lookup_reg_In in Ec. destruct (rg_ent _ H _ _ Ec) as (_ & B & _). rewrite B. exact Ec. }
+      eapply RG_ext; [|eapply RG_detach_locked; [exact H|exact Hr|exact Erm]]; reg_eq_tac.
+  Qed.
+
+  Lemma RG_step : forall st a st', RG st -> step st a = Some st' -> RG st'.
+  Proof.
+    intros st a st' H Hs. destruct a; simpl in Hs.
+    - apply spawn_spec in Hs. destruct Hs as [->|[_ ->]]; auto. eapply RG_ext; [|exact H]; reg_eq_tac.
+    - destruct (t <? ntrig st); [|discriminate]. apply spawn_spec in Hs. destruct Hs as [->|[_ ->]]; auto.
+      eapply RG_ext; [|exact H]; reg_eq_tac.
+    - apply spawn_spec in Hs. destruct Hs as [->|[_ ->]]; auto. eapply RG_ext; [|exact H]; reg_eq_tac.
+    - apply step_AStep in Hs. destruct Hs as (i & rest & st1 & push & sp & Hl & He & ->).
+      eapply RG_ext; [|eapply RG_exec; eauto]. reg_eq_tac.
+  Qed.
+
+  Lemma RG_reachable : forall st, reachable v flt wresf ev_bad hbfail st -> RG st.
+  Proof. apply run_inv; [apply RG_init|apply RG_step]. Qed.
 End RegStep.
+
+(* ---- one contract for every removal region (under RG) ---- *)
+Definition nin (l : list nat) (x : nat) : bool := negb (mem x l).
+
+Definition trg_rest_eq (a b : trg) : Prop :=
+  t_key a = t_key b /\ t_init a = t_init b /\ t_cancelled a = t_cancelled b /\ t_done a = t_done b /\
+  t_ulock a = t_ulock b /\ t_wg a = t_wg b /\ t_started a = t_started b.
+
+Record RM (st st' : state) (r : rmres) : Prop := {
+  rm_frame : same_frame st st';
+  rm_close_in : forall s, In s (rr_close r) -> In s (byid st) /\ s_removed (subs st s) = false;
+  rm_close_nd : NoDup (rr_close r);
+  rm_n : rr_n r = length (rr_close r);
+  rm_subs : forall s, subs st' s = if mem s (rr_close r) then sub_set_removed (subs st s) else subs st s;
+  rm_log : log st' = map GRemoved (rev (rr_close r)) ++ log st;
+  rm_byid : byid st' = filter (nin (rr_close r)) (byid st);
+  rm_tsubs : forall t, t_subs (trigs st' t) = filter (nin (rr_close r)) (t_subs (trigs st t));
+  rm_tother : forall t, trg_rest_eq (trigs st' t) (trigs st t);
+  rm_reg : reg st' = filter (fun p => nin (rr_cancel r) (snd p)) (reg st);
+  rm_cancel_in : forall t, In t (rr_cancel r) -> In (t_key (trigs st t), t) (reg st);
+  rm_cancel_nd : NoDup (rr_cancel r);
+  rm_dec : rr_dec r = length (filter (fun t => t_init (trigs st t)) (rr_cancel r)) }.
+
+Lemma nin_nil : forall x, nin [] x = true. Proof. reflexivity. Qed.
+Lemma nin_app : forall a b x, nin (a ++ b) x = nin a x && nin b x.
+Proof. unfold nin, mem; intros. rewrite existsb_app. destruct (existsb _ a); auto. Qed.
+Lemma nin_true : forall l x, nin l x = true <-> ~ In x l.
+Proof. unfold nin; intros. rewrite negb_true_iff. apply mem_nIn. Qed.
+Lemma filter_id : forall A (f : A -> bool) l, (forall x, In x l -> f x = true) -> filter f l = l.
+Proof. induction l; simpl; intros; auto. rewrite H by auto. f_equal; auto. Qed.
+Lemma trg_rest_refl : forall a, trg_rest_eq a a. Proof. unfold trg_rest_eq; intros; repeat split; auto. Qed.
+
+Lemma RM_id : forall st, RM st st rm0.
+Proof.
+  intros; constructor; simpl; intros; auto using sf_refl, trg_rest_refl; try tauto; try constructor;
+    symmetry; apply filter_id; auto.
+Qed.
+
+Lemma RM_remove_locked : forall st s st' r, RG st -> remove_locked st s = (st', r) -> RM st st' r.
+Proof.
+  intros st s st' r H Hr. destruct (in_dec Nat.eq_dec s (byid st)) as [Hin|Hin].
+  2:{ rewrite remove_locked_out in Hr by auto. inversion Hr; subst. apply RM_id. }
+  rewrite remove_locked_in in Hr by auto. inversion Hr; subst; clear Hr.
+  destruct (rg_byid _ H s Hin) as (Ha & Hrg & Ht & Hrm).
+  set (t := s_tid (subs st s)) in *. set (tr := trigs st t) in *.
+  destruct (rg_ent _ H _ _ Hrg) as (Htn & Htk & _). fold tr in Htk.
+  assert (Hrem : forall l, rem s l = filter (nin [s]) l).
+  { intros l. unfold rem. apply filter_ext. intros y. unfold nin, mem. simpl. destruct (y =? s); auto. }
+  assert (Hclose : rr_close (rm_res st s) = [s]).
+  { unfold rm_res. fold t. fold tr. destruct (rem s (t_subs tr)); auto. }
+  assert (Hother : forall t', t' <> t -> filter (nin [s]) (t_subs (trigs st t')) = t_subs (trigs st t')).
+  { intros t' Hne. apply filter_id. intros y Hy. apply nin_true. intros [<-|[]].
+    apply Hne. symmetry. apply (rg_tsubs _ H _ _ Hy). }
+  constructor; rewrite ?Hclose.
+  - unfold rm_state. fold t. fold tr. destruct (rem s (t_subs tr)); unfold same_frame; simpl; auto.
+  - intros s' [<-|[]]. auto.
+  - constructor; [simpl; tauto|constructor].
+  - unfold rm_res. fold t. fold tr. destruct (rem s (t_subs tr)); auto.
+  - intros s'. unfold rm_state. fold t. fold tr. unfold mem. simpl. rewrite (Nat.eqb_sym s' s).
+    destruct (rem s (t_subs tr)); simpl; unfold upd; rewrite (Nat.eqb_sym s s');
+      destruct (Nat.eqb_spec s' s); subst; simpl; auto.
+  - unfold rm_state. fold t. fold tr. destruct (rem s (t_subs tr)); simpl; auto.
+  - unfold rm_state. fold t. fold tr. rewrite <- Hrem. destruct (rem s (t_subs tr)); simpl; auto.
+  - intros t'. unfold rm_state. fold t. fold tr.
+    destruct (Nat.eq_dec t' t) as [->|Hne].
+    + fold tr. rewrite <- Hrem. destruct (rem s (t_subs tr)) eqn:E; simpl; rewrite upd_same; simpl; auto.
+    + rewrite Hother by auto. destruct (rem s (t_subs tr)); simpl; rewrite upd_other; auto.
+  - intros t'. unfold rm_state. fold t. fold tr.
+    destruct (Nat.eq_dec t' t) as [->|Hne].
+    + destruct (rem s (t_subs tr)); simpl; rewrite upd_same; unfold trg_rest_eq; simpl; fold tr; repeat split; auto.
+    + destruct (rem s (t_subs tr)); simpl; rewrite upd_other by auto; apply trg_rest_refl.
+  - unfold rm_state, rm_res. fold t. fold tr. destruct (rem s (t_subs tr)); simpl.
+    + unfold unreg_key. apply filter_ext_in. intros [k' t'] Hi. simpl. unfold nin, mem. simpl.
+      destruct (rg_ent _ H _ _ Hi) as (_ & B & _).
+      destruct (Nat.eqb_spec k' (t_key tr)); destruct (Nat.eqb_spec t' t); simpl; auto.
+      * exfalso. apply n. subst k'. rewrite Htk in Hi. eapply reg_key_inj; eauto.
+      * exfalso. apply n. subst t'. fold tr in B. congruence.
+    + symmetry. apply filter_id. auto.
+  - intros t'. unfold rm_res. fold t. fold tr. destruct (rem s (t_subs tr)); simpl; [|tauto].
+    intros [<-|[]]. fold tr. rewrite Htk. auto.
+  - unfold rm_res. fold t. fold tr. destruct (rem s (t_subs tr)); simpl; constructor; [simpl; tauto|constructor].
+  - unfold rm_res. fold t. fold tr. destruct (rem s (t_subs tr)); simpl; auto. fold tr. destruct (t_init tr); auto.
+Qed.
